@@ -8,6 +8,89 @@ import (
 
 func init() {
 	verifRegister("C07_aggr", verifH_C07_aggr)
+	verifRegister("C07_strkeys", verifH_C07_strkeys)
+}
+
+// H07-strkeys: SELECT g, COUNT(*), COUNT(g) FROM t GROUP BY g (and the
+// two-column variant g, h) where g is a varchar column whose cells are NULL,
+// the empty string or a symbolic 1-byte string by choice, h an int: NULL, ''
+// and every other value are different groups.
+func verifH_C07_strkeys() {
+	R := verifParam("rows", 2)
+	two := verifParam("two", 0) == 1
+	tbl := &verifStubTable{cols: []string{"g", "h"}}
+	for i := 0; i < R; i++ {
+		var g interface{}
+		switch verifChoice("gkind", 3) {
+		case 0:
+			g = nil
+		case 1:
+			g = ""
+		default:
+			g = verifString("g", 1)
+		}
+		h := verifI32("h")
+		verifAssume(verifAnd(h > -20, h < 20))
+		tbl.rows = append(tbl.rows, []interface{}{g, int64(h)})
+	}
+	rm := &verifRM{tables: map[string]*verifStubTable{"t": tbl}}
+	col := func(n string) sql.ColumnReference { return sql.ColumnReference{ColumnName: n} }
+	q := sql.Select{TableExpression: sql.TableExpression{FromClause: sql.FromClause{sql.TableName{Name: "t"}}}}
+	q.SelectList = sql.SelectList{{ValueExpressionPrimary: col("g")}}
+	q.GroupByClause = []sql.ColumnReference{col("g")}
+	if two {
+		q.SelectList = append(q.SelectList, sql.DerivedColumn{ValueExpressionPrimary: col("h")})
+		q.GroupByClause = append(q.GroupByClause, col("h"))
+	}
+	pCnt := len(q.SelectList)
+	q.SelectList = append(q.SelectList, sql.DerivedColumn{ValueExpressionPrimary: sql.Count{}}, sql.DerivedColumn{ValueExpressionPrimary: sql.Count{ValueExpression: col("g")}})
+	rows, _, err := EvaluateSelect(q, rm)
+	verifAssert(err == nil, "select-ok")
+	if err != nil {
+		return
+	}
+	same := func(a, b []interface{}) bool {
+		s := verifSame(a[0], b[0])
+		if two {
+			s = verifAnd(s, verifSame(a[1], b[1]))
+		}
+		return s
+	}
+	first := make([]bool, R)
+	for i := 0; i < R; i++ {
+		f := true
+		for j := 0; j < i; j++ {
+			f = verifAnd(f, !same(tbl.rows[i], tbl.rows[j]))
+		}
+		first[i] = f
+	}
+	verifCheck(len(rows) == verifCount(first), "one-row-per-distinct-key")
+	for _, r := range rows {
+		verifAssert(len(r.Vals) == pCnt+2, "row-width")
+		match := false
+		for i := 0; i < R; i++ {
+			var member []bool
+			for j := 0; j < R; j++ {
+				member = append(member, same(tbl.rows[i], tbl.rows[j]))
+			}
+			size := verifCount(member)
+			nonNull := size
+			if tbl.rows[i][0] == nil {
+				nonNull = 0
+			}
+			ok := verifAnd(first[i], verifSame(r.Vals[0], tbl.rows[i][0]))
+			if two {
+				ok = verifAnd(ok, verifSame(r.Vals[1], tbl.rows[i][1]))
+			}
+			c, isInt := r.Vals[pCnt].(int64)
+			ok = verifAnd(ok, verifAnd(isInt, c == int64(size)))
+			cv, isInt2 := r.Vals[pCnt+1].(int64)
+			ok = verifAnd(ok, verifAnd(isInt2, cv == int64(nonNull)))
+			match = verifOr(match, ok)
+		}
+		verifCheck(match, "row-has-true-keys-and-counts")
+	}
+	verifReach("end")
 }
 
 // verifAvgOK: A is sum/n rounded to the nearest integer (either neighbour on an exact .5 tie).
